@@ -6,6 +6,10 @@ From DustDDS Require Export Base.Machine Lang.IdlModel.
 Open Scope string_scope.
 Open Scope list_scope.
 
+(* the generated case files import this module: print the index lists of bad_idx / bad_classes
+   on one line (a list wrapped at "(" is not read back completely by the driver) *)
+#[export] Set Printing Width 1000000.
+
 Inductive C41_in : Type :=
 | InSpec (l : list ppitem)
 | InBroken (k : N).          (* a text the grammar must reject (missing `;`, empty enum, ..) *)
